@@ -1,12 +1,12 @@
-CONSTANTS NS = 3
+CONSTANTS NS = 1
   NP = 3
-  LinkPeer <- Link3
-  Hosts <- H3
-  InitAt <- At3_3
-  MovePorts <- Mv3s
-  Dsts <- DSome
+  LinkPeer <- NoLinks
+  Hosts <- H2
+  InitAt <- At1_2
+  MovePorts <- Mv13
+  Dsts <- DPair
   Shapes <- ShA
-  Gaps <- G1
+  Gaps <- GNone
   Sweeps <- BT
   Caches <- BT
   DropInPort = TRUE
@@ -14,10 +14,10 @@ CONSTANTS NS = 3
   IdleTO = 10
   HardTO = 30
   DropTO = 10
-  D = 3
+  D = 5
 INIT Init
 NEXT Next
 CHECK_DEADLOCK FALSE
-VIEW viewE
 CONSTRAINT Bound
-ACTION_CONSTRAINT ExportT
+CONSTRAINT Narrow
+INVARIANT Export
